@@ -1,7 +1,30 @@
-(* Observation commands: filled in by the corresponding property work; definitions only. *)
+(* Observation commands of the requirement domain (C08).  Definitions only.
+   r.parse s   -> "E" (InvalidRequirement) | "?" (marker literal with a backslash: outside the model) |
+                  OK|name|sorted extras joined by ","|str(specifier)|U<url> or -|M<str(marker)> or -|str(r)
+   r.eq a b    -> "E" if either is invalid, "?" if either is outside the model, else T/F (Requirement.__eq__) *)
 From Coq Require Import List NArith Bool String.
 Import ListNotations.
-Require Import Show.
+Require Import Show MText MkModel SpecContains ReqModel.
 Open Scope N_scope.
 
-Definition run_req (cmd : list N) (args : list (list N)) : option (list N) := None.
+Definition obs_req (s : list N) : list N :=
+  match Requirement s with
+  | RqInvalid => asc "E"
+  | RqOracle => asc "?"
+  | RqOk r =>
+      fields [asc "OK"; q_name r; rq_join [44] (rq_extras_sorted r); rq_set_str (q_specs r);
+              match q_url r with Some u => 85 :: u | None => [45] end;
+              match q_marker r with Some m => 77 :: format_marker m | None => [45] end;
+              req_str r]
+  end.
+Definition obs_req_eq (a b : list N) : list N :=
+  match Requirement a, Requirement b with
+  | RqOk x, RqOk y => show_bool (req_eq x y)
+  | RqOracle, _ | _, RqOracle => asc "?"
+  | _, _ => asc "E"
+  end.
+
+Definition run_req (cmd : list N) (args : list (list N)) : option (list N) :=
+  if seqb cmd (asc "r.parse") then Some (obs_req (nth_str 0 args))
+  else if seqb cmd (asc "r.eq") then Some (obs_req_eq (nth_str 0 args) (nth_str 1 args))
+  else None.
